@@ -178,7 +178,7 @@ class Contract:
         # flow typing may have narrowed an Optional parameter (after `x is not None`) or replaced it by a default; contract
         # lambdas always see parameters at their DECLARED type: a narrowed value v is presented as some(v)
         widened = None
-        for nm, ty in list(self.params) + list(self.captured):
+        for nm, ty in list(self.params) + list(self.captured) + list(self.local_types.items()):
             cur = st.env.get(nm)
             if isinstance(ty, TOpt) and cur is not None and not isinstance(cur, E.Ref) and cur.ty == ty.elem:
                 widened = widened or dict(st.env)
